@@ -16,6 +16,8 @@ limitations under the License.
 
 #include "libcellml/analysermodel.h"
 
+#include <algorithm>
+
 #include "analysermodel_p.h"
 #include "utilities.h"
 
@@ -399,20 +401,15 @@ bool AnalyserModel::areEquivalentVariables(const VariablePtr &variable1,
     // means that we can safely cache the result of a call to that utility. In
     // turn, this means that we can speed up any feature (e.g., code generation)
     // that also relies on that utility. When it comes to the key for the cache,
-    // we use the Cantor pairing function with the address of the two variables
-    // as parameters, thus ensuring the uniqueness of the key (see
-    // https://en.wikipedia.org/wiki/Pairing_function#Cantor_pairing_function).
+    // we use the (ordered) pair of the addresses of the two variables, thus
+    // ensuring the uniqueness of the key.
+    // Note: a pairing function (e.g., Cantor's) cannot be used here since it
+    //       would need more bits than uintptr_t has to offer, i.e. it would
+    //       wrap around for real addresses and no longer be unique.
 
     auto v1 = reinterpret_cast<uintptr_t>(variable1.get());
     auto v2 = reinterpret_cast<uintptr_t>(variable2.get());
-
-    if (v2 < v1) {
-        v1 += v2;
-        v2 = v1 - v2;
-        v1 = v1 - v2;
-    }
-
-    auto key = ((v1 + v2) * (v1 + v2 + 1) >> 1U) + v2;
+    std::pair<uintptr_t, uintptr_t> key = std::minmax(v1, v2);
     auto cacheKey = mPimpl->mCachedEquivalentVariables.find(key);
 
     if (cacheKey != mPimpl->mCachedEquivalentVariables.end()) {
